@@ -441,6 +441,7 @@ fn iter_case(rep: &mut Report, seed: u64, i: u64) {
     let v: Vec<u64> = Vec::<u64>::gen(&mut rng);
     let items: Vec<Item> = v.iter().map(|x| Item::uint(*x)).collect();
     let rp = vec!["c03".into(), "--seed".into(), seed.to_string(), "--replay".into(), "iter".into(), i.to_string()];
+    let rp0: Vec<String> = rp.clone();
     let exact = minicbor::to_vec(ArrayIter::new(v.iter())).map_err(|e| e.to_string());
     let inexact = minicbor::to_vec(ArrayIter::new(v.iter().filter(|_| true))).map_err(|e| e.to_string());
     let hinted_exact = v.is_empty(); // filter over an empty slice iterator reports (0, Some(0))
@@ -457,12 +458,28 @@ fn iter_case(rep: &mut Report, seed: u64, i: u64) {
     let m2 = minicbor::to_vec(MapIter::new(v.iter().filter(|_| true).map(|x| (*x, x % 2 == 0)))).map_err(|e| e.to_string());
     let wm1 = Item::map(pairs.clone()).encode();
     let wm2 = if hinted_exact { wm1.clone() } else { Item::map_indef(pairs).encode() };
+    let (wm1c, wm2c) = (wm1.clone(), wm2.clone());
     if m1.as_deref() != Ok(&wm1[..]) {
         fail(rep, "MapIter|exact", format!("MapIter with exact size hint wrote {:?}, expected {}", m1.map(|b| hex(&b)), hex(&wm1)), &[], rp.clone());
     }
     if m2.as_deref() != Ok(&wm2[..]) {
         fail(rep, "MapIter|inexact", format!("MapIter with inexact size hint wrote {:?}, expected {}", m2.map(|b| hex(&b)), hex(&wm2)), &[], rp);
     }
+    // the same *object* encoded repeatedly (also after a write fault part-way): identical bytes
+    fn again<T: minicbor::Encode<()>>(rep: &mut Report, what: &str, obj: &T, want: &[u8], cut: usize, rp: &[String]) {
+        let first = minicbor::to_vec(obj).map_err(|e| e.to_string());
+        let mut small = vec![0u8; cut.min(want.len().saturating_sub(1))];
+        let faulted = minicbor::encode(obj, &mut small[..]).is_err();
+        let second = minicbor::to_vec(obj).map_err(|e| e.to_string());
+        if first.as_deref() != Ok(want) || second.as_deref() != Ok(want) {
+            fail(rep, &format!("{}|encoded-twice", what), format!("the same object was encoded as {:?}, then (after an attempt into a {}-byte slice, failed: {}) as {:?}; expected {} both times", first.map(|b| hex(&b)), small.len(), faulted, second.map(|b| hex(&b)), hex(want)), &[], rp.to_vec());
+        }
+    }
+    let cut = rng.usize_below(w2.len().max(1));
+    again(rep, "ArrayIter|exact", &ArrayIter::new(v.iter()), &w1, cut, &rp0);
+    again(rep, "ArrayIter|inexact", &ArrayIter::new(v.iter().filter(|_| true)), &w2, cut, &rp0);
+    again(rep, "MapIter|exact", &MapIter::new(v.iter().map(|x| (*x, x % 2 == 0))), &wm1c, cut, &rp0);
+    again(rep, "MapIter|inexact", &MapIter::new(v.iter().filter(|_| true).map(|x| (*x, x % 2 == 0))), &wm2c, cut, &rp0);
     rep.seen(hash_mix(77, fnv64(&w1)));
 }
 
